@@ -28,8 +28,9 @@
 (*                                                                         *)
 (* Amounts.  TLC integers are 32 bit, memory limits are not.  An amount is *)
 (* [k |-> "lin", a, b] = a*Unit + b with Unit a per-resource constant      *)
-(* (1 or a power of two dividing every limit of that resource, so limits   *)
-(* are exact multiples: b = 0), |b| <= Unit/2; or one of the named values  *)
+(* (1, or 2^20 when the resource's totals do not fit 32 bits; a limit is   *)
+(* such a pair too, b = 0 for the shipped table), -Unit/2 <= b < Unit/2;   *)
+(* or one of the named values                                              *)
 (* "neg" (-1), "p63" (2^63), "wrap" (2^63 + MinUnit: doubles to an         *)
 (* in-range amount modulo 2^64), "u64max" (2^64-1), "over64" (2^64),       *)
 (* "nil" (field absent), "other" (anything else, only ever produced by the *)
@@ -46,9 +47,12 @@ CONSTANTS
     DepositDenom,    \* denomination of the minimum deposit parameter
     OtherDenom,      \* a well-formed denomination that is neither
     UnitCPU, UnitMem, UnitSto,
-    MinUnitCPU, MaxUnitCPU, MaxGroupCPU,
+    MinUnitCPU, MaxUnitCPU, MaxGroupCPU,      \* resource limits, `a` part (whole units) ...
     MinUnitMem, MaxUnitMem, MaxGroupMem,
     MinUnitSto, MaxUnitSto, MaxGroupSto,
+    MinUnitCPUB, MaxUnitCPUB, MaxGroupCPUB,   \* ... and `b` part + BOff (cfg files have no negative numbers); all
+    MinUnitMemB, MaxUnitMemB, MaxGroupMemB,   \* BOff when the limits are multiples of the unit (the shipped table)
+    MinUnitStoB, MaxUnitStoB, MaxGroupStoB,
     MinUnitCount, MaxUnitCount,
     MinUnitPrice, MaxUnitPrice,
     MaxGroupCount, MaxGroupUnits,
@@ -62,15 +66,18 @@ vars == <<cur, phase, st, result>>
 
 Res == {"cpu", "mem", "sto"}
 Unit     == [cpu |-> UnitCPU,     mem |-> UnitMem,     sto |-> UnitSto]
-MinUnit  == [cpu |-> MinUnitCPU,  mem |-> MinUnitMem,  sto |-> MinUnitSto]
-MaxUnit  == [cpu |-> MaxUnitCPU,  mem |-> MaxUnitMem,  sto |-> MaxUnitSto]
-MaxGroup == [cpu |-> MaxGroupCPU, mem |-> MaxGroupMem, sto |-> MaxGroupSto]
+BOff == 524288
+L(a, bo) == [a |-> a, b |-> bo - BOff]           \* a limit: a*Unit + b, |b| <= Unit/2, like any amount
+MinUnit  == [cpu |-> L(MinUnitCPU, MinUnitCPUB),   mem |-> L(MinUnitMem, MinUnitMemB),   sto |-> L(MinUnitSto, MinUnitStoB)]
+MaxUnit  == [cpu |-> L(MaxUnitCPU, MaxUnitCPUB),   mem |-> L(MaxUnitMem, MaxUnitMemB),   sto |-> L(MaxUnitSto, MaxUnitStoB)]
+MaxGroup == [cpu |-> L(MaxGroupCPU, MaxGroupCPUB), mem |-> L(MaxGroupMem, MaxGroupMemB), sto |-> L(MaxGroupSto, MaxGroupStoB)]
 Mid      == [cpu |-> MidCPU,      mem |-> MidMem,      sto |-> MidSto]
 CountSat == 2147483647     \* any replica count >= 2^31-1 (the harness sends max uint32)
 
 ASSUME /\ Impl \in {"intended", "asfound"}
-       /\ \A r \in Res : /\ Unit[r] >= 1 /\ 0 < MinUnit[r] /\ MinUnit[r] < Mid[r] /\ Mid[r] < MaxUnit[r]
-                         /\ MaxUnit[r] <= MaxGroup[r]
+       /\ \A r \in Res : /\ Unit[r] >= 1 /\ 0 <= MinUnit[r].a /\ MinUnit[r].a < Mid[r] /\ Mid[r] < MaxUnit[r].a
+                         /\ MaxUnit[r].a <= MaxGroup[r].a
+                         /\ \A x \in {MinUnit[r], MaxUnit[r], MaxGroup[r]} : 2 * x.b >= -Unit[r] /\ 2 * x.b < Unit[r] + 1
        /\ 0 < MinUnitCount /\ MinUnitCount <= MaxUnitCount /\ MaxUnitCount < CountSat
        /\ 0 < MinUnitPrice /\ MinUnitPrice <= MaxUnitPrice
        /\ MaxGroupCount >= 1 /\ MaxGroupUnits >= 1 /\ VersionLen >= 2
@@ -85,8 +92,12 @@ Sp(k)     == [k |-> k, a |-> 0, b |-> 0]
 IsLin(v)  == v.k = "lin"
 Huge      == {"p63", "wrap", "u64max", "over64"}      \* named values above every limit
 
-\* the amount `a` units plus offset off of resource r (off in -1..1); with Unit 1 the offset is folded into a
-V(r, a, off) == IF Unit[r] = 1 THEN (IF a + off < 0 THEN Sp("neg") ELSE Lin(a + off, 0)) ELSE Lin(a, off)
+\* renormalise a*U + b so that b is in [-U/2, U/2)
+Norm(r, a, b) == LET U == Unit[r]
+                     H == U \div 2
+                 IN  Lin(a + ((b + H) \div U), ((b + H) % U) - H)
+\* the amount "limit x plus off" of resource r (off in -1..1)
+V(r, x, off) == LET v == Norm(r, x.a, x.b + off) IN IF v.a < 0 THEN Sp("neg") ELSE v
 \* plain amounts (prices, deposits: unit 1)
 N(a) == IF a < 0 THEN Sp("neg") ELSE Lin(a, 0)
 
@@ -95,16 +106,16 @@ LEa(v, hi) == v.a < hi \/ (v.a = hi /\ v.b <= 0)
 GEa(v, lo) == v.a > lo \/ (v.a = lo /\ v.b >= 0)
 Within(v, lo, hi) == IsLin(v) /\ GEa(v, lo) /\ LEa(v, hi)
 
-\* renormalise a*U + b so that b is in [-U/2, U/2)
-Norm(r, a, b) == LET U == Unit[r]
-                     H == U \div 2
-                 IN  Lin(a + ((b + H) \div U), ((b + H) % U) - H)
+\* the same against a limit pair
+LEl(v, x) == v.a < x.a \/ (v.a = x.a /\ v.b <= x.b)
+GEl(v, x) == v.a > x.a \/ (v.a = x.a /\ v.b >= x.b)
+WithinL(v, lo, hi) == IsLin(v) /\ GEl(v, lo) /\ LEl(v, hi)
 
 -----------------------------------------------------------------------------
 (* The oracle: the property statement, clause by clause *)
 
 UnitWithin(u) ==
-    /\ \A r \in Res : Within(u[r], MinUnit[r], MaxUnit[r])          \* per-unit CPU, memory, storage bounds
+    /\ \A r \in Res : WithinL(u[r], MinUnit[r], MaxUnit[r])         \* per-unit CPU, memory, storage bounds
     /\ u.count >= MinUnitCount /\ u.count <= MaxUnitCount            \* replica-count bounds
     /\ Within(u.price, MinUnitPrice, MaxUnitPrice)                   \* price bounds
     /\ u.pdenom = Denom                                              \* priced in the network denomination
@@ -115,9 +126,11 @@ TotalWithin(g, r) ==
         TA == FoldSet(LAMBDA j, acc : acc + g.units[j][r].a * g.units[j].count, 0, J)
         TB == FoldSet(LAMBDA j, acc : acc + g.units[j][r].b * g.units[j].count, 0, J)
         A  == TA + (TB \div Unit[r])
-        B  == TB % Unit[r]
+        B  == TB % Unit[r]                                   \* total = A*Unit + B, 0 <= B < Unit
+        MA == MaxGroup[r].a + (MaxGroup[r].b \div Unit[r])
+        MB == MaxGroup[r].b % Unit[r]                        \* bound = MA*Unit + MB, likewise
     IN  /\ (A > 0 \/ (A = 0 /\ B > 0))
-        /\ (A < MaxGroup[r] \/ (A = MaxGroup[r] /\ B = 0))
+        /\ (A < MA \/ (A = MA /\ B <= MB))
 
 \* a total is only defined (and only computable in 32 bits) for a group whose units are individually fine
 Summable(g) == Len(g.units) <= MaxGroupUnits /\ \A j \in DOMAIN g.units : UnitWithin(g.units[j])
@@ -136,7 +149,7 @@ ClauseHolds(c, d) ==
     IN CASE c = "group-count" -> Len(d.groups) >= 1 /\ Len(d.groups) <= MaxGroupCount
          [] c = "names"       -> \A i, j \in G : i # j => d.groups[i].name # d.groups[j].name
          [] c = "unit-count"  -> \A i \in G : Len(d.groups[i].units) >= 1 /\ Len(d.groups[i].units) <= MaxGroupUnits
-         [] c \in Res         -> EachUnit(LAMBDA u : Within(u[c], MinUnit[c], MaxUnit[c]))
+         [] c \in Res         -> EachUnit(LAMBDA u : WithinL(u[c], MinUnit[c], MaxUnit[c]))
          [] c = "replicas"    -> EachUnit(LAMBDA u : u.count >= MinUnitCount /\ u.count <= MaxUnitCount)
          [] c = "price"       -> EachUnit(LAMBDA u : Within(u.price, MinUnitPrice, MaxUnitPrice))
          [] c = "price-denom" -> EachUnit(LAMBDA u : u.pdenom = Denom)
@@ -152,13 +165,15 @@ WithinLimits(d) == \A c \in Clauses : ClauseHolds(c, d)
 
 GTa(v, hi) == v.k \in Huge \/ (IsLin(v) /\ ~LEa(v, hi))
 LTa(v, lo) == v.k = "neg" \/ (IsLin(v) /\ ~GEa(v, lo))
+GTl(v, x)  == v.k \in Huge \/ (IsLin(v) /\ ~LEl(v, x))
+LTl(v, x)  == v.k = "neg" \/ (IsLin(v) /\ ~GEl(v, x))
 
 \* validateCPU / validateMemory / validateStorage: nil check, then ResourceValue.Value() = Int.Uint64(), which
 \* panics outside 0..2^64-1 (runTx recovers: the transaction fails), then the two-sided bound
 ResVerdict(r, v) ==
     IF v.k = "nil" THEN "unit-" \o r
     ELSE IF v.k \in {"neg", "over64", "other"} THEN "panic"
-    ELSE IF GTa(v, MaxUnit[r]) \/ LTa(v, MinUnit[r]) THEN "unit-" \o r
+    ELSE IF GTl(v, MaxUnit[r]) \/ LTl(v, MinUnit[r]) THEN "unit-" \o r
     ELSE "ok"
 
 \* validateResourceGroup: the unit's three resources, then its replica count
@@ -180,7 +195,7 @@ Acc(us, r, n) == IF n = 0 THEN Lin(0, 0)
                       IN  Norm(r, p.a + s.a, p.b + s.b)
 
 TotalBad(us, r) == LET t == Acc(us, r, Len(us))
-                   IN  GTa(t, MaxGroup[r]) \/ ~(t.a > 0 \/ (t.a = 0 /\ t.b > 0))
+                   IN  GTl(t, MaxGroup[r]) \/ ~(t.a > 0 \/ (t.a = 0 /\ t.b > 0))
 
 \* validateUnitPricing + the denomination check of validateGroupPricing, unit after unit
 ValidDenom(d) == d # ""
@@ -297,7 +312,7 @@ FieldClasses(f) == CASE f \in Res -> ResClasses(f)
                      [] f = "price" -> PriceClasses
                      [] f = "pdenom" -> PDenoms
 
-BaseUnit == [cpu |-> V("cpu", MinUnitCPU, 0), mem |-> V("mem", MinUnitMem, 0), sto |-> V("sto", MinUnitSto, 0),
+BaseUnit == [cpu |-> V("cpu", MinUnit.cpu, 0), mem |-> V("mem", MinUnit.mem, 0), sto |-> V("sto", MinUnit.sto, 0),
              count |-> MinUnitCount, price |-> N(MinUnitPrice), pdenom |-> Denom]
 GName(i) == "g" \o ToString(i)
 BaseGroup(i, n) == [name |-> GName(i), units |-> [j \in 1..n |-> BaseUnit]]
@@ -345,7 +360,7 @@ F_names == IF "names" \notin Fams THEN {} ELSE
 
 \* F5 aggregated limits: n units whose amounts of one resource and replica counts range over the values that
 \* put the group total below, at and above the per-group bound (all pairs; all triples when thorough)
-K(r) == MaxGroup[r] \div MaxUnit[r]
+K(r) == IF MaxUnit[r].a = 0 THEN 2 ELSE MaxGroup[r].a \div MaxUnit[r].a
 TotVals(r)   == {V(r, MinUnit[r], 0), Lin(Mid[r], IF Unit[r] = 1 THEN 0 ELSE MidOff - 500), V(r, MaxUnit[r], -1),
                  V(r, MaxUnit[r], 0)}
 TotCounts(r) == {c \in {1, 2, K(r), K(r) + 1, MaxUnitCount} : c >= MinUnitCount /\ c <= MaxUnitCount}
@@ -383,7 +398,7 @@ F_mix == IF "mix" \notin Fams THEN {} ELSE
            \cup {[b EXCEPT !.ddenom = dd] : dd \in DDenoms} \cup {[b EXCEPT !.idc = i] : i \in IdClasses} :
            b \in {ShapeMsg(MaxGroupCount + 1, 1, "all"), ShapeMsg(MaxGroupCount, 1, "all"),
                   ShapeMsg(1, MaxGroupUnits + 1, "all"),
-                  SetField(BaseMsg(1, 1), 1, 1, "cpu", V("cpu", MaxUnitCPU, 1)),
+                  SetField(BaseMsg(1, 1), 1, 1, "cpu", V("cpu", MaxUnit.cpu, 1)),
                   SetField(BaseMsg(1, 1), 1, 1, "price", N(MaxUnitPrice + 1))}}
 
 \* F9 update-deployment: id x version length x the groups the message carries (ignored by the handler: whatever
@@ -392,7 +407,7 @@ F_update == IF "update" \notin Fams THEN {} ELSE
     {[kind |-> "update", idc |-> i, groups |-> g, version |-> v, deposit |-> Lin(0, 0), ddenom |-> ""] :
         i \in IdClasses, v \in VersionClasses,
         g \in {<<>>, BaseMsg(1, 1).groups, BaseMsg(MaxGroupCount + 1, 1).groups,
-               SetField(BaseMsg(1, 1), 1, 1, "cpu", V("cpu", MaxUnitCPU, 1)).groups,
+               SetField(BaseMsg(1, 1), 1, 1, "cpu", V("cpu", MaxUnit.cpu, 1)).groups,
                [BaseMsg(2, 1) EXCEPT !.groups[2].name = GName(1)].groups}}
 
 Tag(f, S) == {[fam |-> f, m |-> x, n |-> 0] : x \in S}
